@@ -44,9 +44,21 @@ def list_kw(mn, mx):
 class Rec:
     """recording notifier attached to every container that is reachable at the moment"""
 
-    def __init__(self):
+    def __init__(self, owner=None):
         self.n = 0
+        self.t = 0                     # change notifications of the trait itself (obj.x), counted on failing ops only
         self.list_events = []
+        if owner is not None:
+            owner.on_trait_change(self.on_trait, "x")
+
+    def on_trait(self):
+        self.t += 1
+
+    def failed(self, out):
+        """a failing operation must notify nobody: also no change notification of the trait itself"""
+        if out != "Ok" and self.t:
+            self.n += self.t
+            self.list_events.append([["I", -1000003], [], []])
 
     def on_list(self, tl, index, removed, added):
         self.n += 1
@@ -70,6 +82,7 @@ class Rec:
 
     def reset(self):
         self.n = 0
+        self.t = 0
         del self.list_events[:]
 
 
@@ -140,7 +153,7 @@ def run_list(case):
                     lambda: List(INNER[case["vk"]], **list_kw(case["minlen"], case["maxlen"])))()
     init_raw = [raw_init(case["vk"], a) for a in case["init"]]
     owner.x = list(init_raw)
-    rec = Rec()
+    rec = Rec(owner)
     hist = []
     for op in case["ops"]:
         tl = owner.x
@@ -159,6 +172,7 @@ def run_list(case):
                 ret = L.apply_op(tl, op)
         except Exception as e:  # noqa
             out = exn(e)
+        rec.failed(out)
         hist.append({"out": out, "after": [atom(v) for v in owner.x], "events": [list(e) for e in rec.list_events],
                      "ret": ret})
     return hist
@@ -169,7 +183,7 @@ def run_set(case):
     owner = cls_for(("set", case["vk"]), lambda: Set(INNER[case["vk"]]))()
     init_raw = set(raw_init(case["vk"], a) for a in case["init"])
     owner.x = set(init_raw)
-    rec = Rec()
+    rec = Rec(owner)
     hist = []
     for op in case["ops"]:
         ts = owner.x
@@ -218,6 +232,7 @@ def run_set(case):
                 raise ValueError(k)
         except Exception as e:  # noqa
             out = exn(e)
+        rec.failed(out)
         hist.append({"out": out, "after": sorted(atom(v) for v in owner.x), "nev": rec.n, "ret": ret})
     return hist
 
@@ -234,7 +249,7 @@ def run_dict(case):
     owner = cls_for(("dict", case["kk"], case["vk"]), lambda: Dict(INNER[case["kk"]], INNER[case["vk"]]))()
     init_raw = dict((raw_init(case["kk"], k), raw_init(case["vk"], v)) for k, v in case["init"])
     owner.x = dict(init_raw)
-    rec = Rec()
+    rec = Rec(owner)
     hist = []
     for op in case["ops"]:
         td = owner.x
@@ -274,6 +289,7 @@ def run_dict(case):
                 raise ValueError(k)
         except Exception as e:  # noqa
             out = exn(e)
+        rec.failed(out)
         hist.append({"out": out, "after": [[atom(a), atom(b)] for a, b in owner.x.items()], "nev": rec.n})   # insertion order (popitem)
     return hist
 
@@ -306,7 +322,7 @@ def run_nested(case):
                     lambda: List(List(INNER[case["vk"]], **list_kw(imn, imx)), **list_kw(omn, omx)))()
     init_raw = [[raw_init(case["vk"], a) for a in r] for r in case["init"]]
     owner.x = [list(r) for r in init_raw]
-    rec = Rec()
+    rec = Rec(owner)
     hist = []
     for op in case["ops"]:
         tl = owner.x
@@ -355,6 +371,7 @@ def run_nested(case):
                 raise ValueError(k)
         except Exception as e:  # noqa
             out = exn(e)
+        rec.failed(out)
         hist.append({"out": out, "after": [enc_inner(inner) for inner in owner.x], "nev": rec.n})
     return hist
 
@@ -366,7 +383,7 @@ def run_ndict(case):
     owner = cls_for(("ndict", vk, imn, imx), lambda: Dict(Str, List(INNER[vk], **list_kw(imn, imx))))()
     init_raw = dict((val(k), [raw_init(vk, a) for a in r]) for k, r in case["init"])
     owner.x = dict((k, list(v)) for k, v in init_raw.items())
-    rec = Rec()
+    rec = Rec(owner)
     hist = []
     for op in case["ops"]:
         td = owner.x
@@ -404,6 +421,7 @@ def run_ndict(case):
                 raise ValueError(k)
         except Exception as e:  # noqa
             out = exn(e)
+        rec.failed(out)
         hist.append({"out": out, "after": [[atom(a), enc_inner(inner)] for a, inner in owner.x.items()],
                      "nev": rec.n})     # insertion order
     return hist
@@ -437,7 +455,7 @@ def run_deep(case):
         return t
     owner = cls_for(("deep", case["vk"], json_key(case["bounds"])), mk)()
     owner.x = deep_init(case["vk"], case["init"])
-    rec = Rec()
+    rec = Rec(owner)
     hist = []
     for op in case["ops"]:
         deep_attach(rec, owner.x)
@@ -482,6 +500,7 @@ def run_deep(case):
                     raise ValueError(k)
         except Exception as e:  # noqa
             out = exn(e)
+        rec.failed(out)
         hist.append({"out": out, "after": deep_enc(owner.x), "nev": rec.n})
     return hist
 
